@@ -12,7 +12,7 @@ import (
 func init() {
 	register(&propInfo{
 		ID:          "C13",
-		Explanation: "Path analysis of every reflective call into user code in the library: (R13.1) each reflect.Value.Call/CallSlice lies in a function that, on every path to the call, has registered a deferred function literal which calls recover() directly, never re-panics, never type-asserts the recovered value unsafely, and — whenever the recovered value is non-nil, with no further condition — assigns a non-nil error to the function's error result, which is what the function returns; (R13.2) every caller of such a function tests that error and, when it is non-nil, emits an error reply and returns without reaching the success reply; (R13.3) user code is never invoked reflectively from any other place (no goroutine runs handler code outside that frame). (R13.5) nothing acquired before the user call (semaphore send/receive, Lock, WaitGroup.Add, atomic add) is released only after it in straight-line code of the recovering function. R13.2 also requires the value results of the protected call to be indexed only where its error is known nil.",
+		Explanation: "Path analysis of every reflective call into user code in the library: (R13.1) each reflect.Value.Call/CallSlice lies in a function that, on every path to the call, has registered a deferred function literal which calls recover() directly, never re-panics, never type-asserts the recovered value unsafely, and — whenever the recovered value is non-nil, with no further condition — assigns a non-nil error to the function's error result, which is what the function returns; (R13.2) every caller of such a function tests that error and, when it is non-nil, emits an error reply and returns without reaching the success reply; (R13.3) user code is never invoked reflectively from any other place (no goroutine runs handler code outside that frame). (R13.5) nothing acquired before the user call (semaphore send/receive, Lock, WaitGroup.Add, atomic add) is released only after it in straight-line code of the recovering function. R13.2 also requires the value results of the protected call to be indexed only where its error is known nil. (R13.6) the HTTP client reads error replies in full.",
 		NotDecided:  "Panics raised on goroutines the handler itself starts, panics in user-supplied param codecs / tracers / error marshalers (outside the property), and that other calls are unaffected in every schedule (follows from goroutine-per-call structure, not explored).",
 		Assumptions: []string{
 			"Go semantics: recover() only stops a panic when called directly by the deferred function",
